@@ -94,6 +94,12 @@ def gen_cases(rng, tier):
                 cases.append({"tool": tool, "launcher": la, "scenario": "list", "into": False, "verbose": rng.random() < 0.5, "sub": rng.choice(["", "arc/"])})
             else:
                 cases.append({"tool": tool, "launcher": la, "scenario": "run"})
+    # list and extract again with the archive reached through a symbolic link kept in another directory
+    more = []
+    for c in cases:
+        if c["tool"] in ARCHIVERS and c["scenario"] in ("list", "extract") and c["launcher"] == "module":
+            more.append(dict(c, link=True, sub="desk/"))
+    cases += more
     # the four actions again with the archive's extension spelled in upper and mixed case
     more = []
     for c in cases:
@@ -271,7 +277,14 @@ def run_case(case, ctx):
                     bad = {"create wrote": new, "want": want, "into": bool(case.get("into"))}
             else:
                 try:
-                    build_archive(tool, root, rel)
+                    if case.get("link"):
+                        # the archive named on the command line is a symbolic link to an image kept elsewhere: 'beside the archive' is beside the link
+                        real = "store/" + os.path.basename(rel)
+                        build_archive(tool, root, real)
+                        os.makedirs(os.path.dirname(os.path.join(root, rel)) or root, exist_ok=True)
+                        os.symlink(os.path.relpath(os.path.join(root, real), os.path.dirname(os.path.join(root, rel)) or root), os.path.join(root, rel))
+                    else:
+                        build_archive(tool, root, rel)
                 except RuntimeError as e:
                     # creating the archive at the designated path is part of the property: no archive there is a violation, not a harness matter
                     bad = {"create did not produce the archive at the designated path": rel, "why": str(e)[-200:], "tree": sorted(snapshot(root))[:6]}
@@ -333,7 +346,7 @@ def run_case(case, ctx):
                                 if again.get(os.path.normpath(p_)) != c_:
                                     bad = {"second extraction did not overwrite": os.path.normpath(p_), "len": [len(again.get(os.path.normpath(p_)) or b""), len(c_)]}
                                     break
-        sig = [tool, la, sc] + ([str(case.get("into"))] if "into" in case else []) + (["into:" + case["into_pos"]] if case.get("into_pos") else []) + (["ext:" + case["ext_spelling"]] if case.get("ext_spelling") else [])
+        sig = [tool, la, sc] + ([str(case.get("into"))] if "into" in case else []) + (["into:" + case["into_pos"]] if case.get("into_pos") else []) + (["ext:" + case["ext_spelling"]] if case.get("ext_spelling") else []) + (["link"] if case.get("link") else [])
         skipped = dis == "unmodelled"
         if skipped:
             dis = None
